@@ -165,3 +165,9 @@ Theorem C18_negated_literal_is_opposite : forall (s : string) (z : Z),
     IntLit.read_isize false s = Some z -> IntLit.read_isize true s = Some (- z)%Z.
 Proof. exact IntLitAgree.negated_isize_is_opposite. Qed.
 Print Assumptions C18_negated_literal_is_opposite.
+
+Theorem C18_usize_token_vs_text : forall (neg : bool) (s : string) (n : N) (sfx : string),
+    IntLit.lit_value s = Some (n, sfx) ->
+    (usize_of (IntLit.signed neg n) = IntLit.read_usize neg s <-> ~ (neg = true /\ n = 0%N)).
+Proof. exact IntLitAgree.usize_token_vs_text. Qed.
+Print Assumptions C18_usize_token_vs_text.
